@@ -29,9 +29,10 @@ def stageTag (routes : List Route) (req : Req) : String :=
 /-- curly.go:19 `SelectRoute` + path_processor.go -/
 def routeCurly (cfg : Config) (req : Req) : Outcome × String :=
   let qs := tokenize req.path
-  match Curly.detectWebService qs cfg.services none with
-  | none => (.error 404 none, "404-nosvc")
-  | some (svc, _) =>
+  match Curly.detectWebService E qs cfg.services none with
+  | none => (.panic "curly.score", "panic")
+  | some none => (.error 404 none, "404-nosvc")
+  | some (some (svc, _)) =>
     match Curly.selectRoutes E svc.built qs with
     | none => (.panic "curly.match", "panic")
     | some [] => (.error 404 none, "404-noroute")
